@@ -1,7 +1,7 @@
 (* Model/Dispatch.v -- the single extracted entry point.  op numbers: <property>*100 + k *)
 From Coq Require Import ZArith List Bool.
 From B2Z Require Import Base.Prims Base.Sx Model.Partitions Model.IndexParse Model.BinArith Model.Schema Model.Overlap Model.Icf Model.RegionIndex Model.Plink Model.LocalAlleles.
-From B2Z Require Model.Regions Model.Workers.
+From B2Z Require Model.Regions Model.Workers Model.Footprint.
 Import ListNotations.
 Open Scope Z_scope.
 
@@ -255,12 +255,50 @@ Definition d_C14 (k : Z) (arg : sx) : sx :=
   | _ => err_sx 2
   end.
 
+(* ---- C07 ---- *)
+Definition un_path (s : sx) : option Footprint.path :=
+  match s with
+  | L [A 0; A f; A j] => Some (Footprint.IcfFieldPart f j)
+  | L [A 1; A j] => Some (Footprint.IcfSummary j)
+  | L [A 2] => Some Footprint.IcfWipMeta
+  | L [A 3] => Some Footprint.IcfFinalMeta
+  | L [A 4] => Some Footprint.IcfOther
+  | L [A 10; A j] => Some (Footprint.VczWipPart j)
+  | L [A 11; A j] => Some (Footprint.VczPart j)
+  | L [A 12; A j] => Some (Footprint.VczStalePart j)
+  | L [A 13] => Some Footprint.VczWipArrays
+  | L [A 14] => Some Footprint.VczWipMeta
+  | L [A 15] => Some Footprint.VczFinal
+  | L [A 20; A a; A k] => Some (Footprint.PlinkChunk a k)
+  | L [A 21] => Some Footprint.PlinkMeta
+  | L [A 30] => Some Footprint.Input
+  | _ => None end.
+Definition un_task (s : sx) : option Footprint.task :=
+  match s with
+  | L [A 0; A j] => Some (Footprint.Explode j)
+  | L [A 1; A j] => Some (Footprint.Encode j)
+  | L [A 2; A a; A b; A cs] => Some (Footprint.PlinkSlice a b cs)
+  | _ => None end.
+Definition d_C07 (k : Z) (arg : sx) : sx :=
+  match k, arg with
+  | 0, L [t; ps] =>        (* per path: (in write set, in read set) *)
+      match un_task t, un_list un_path ps with
+      | Some t, Some ps => L (map (fun p => L [of_bool (Footprint.writes t p); of_bool (Footprint.reads t p)]) ps)
+      | _, _ => err_sx 1 end
+  | 1, L [t; u; ps] =>
+      match un_task t, un_task u, un_list un_path ps with
+      | Some t, Some u, Some ps => of_bool (Footprint.independent_b t u ps)
+      | _, _, _ => err_sx 1 end
+  | _, _ => err_sx 2
+  end.
+
 Definition dispatch (op : Z) (arg : sx) : sx :=
   let p := op / 100 in
   let k := op mod 100 in
   match p with
   | 11 => d_C11 k arg
   | 4 => d_C04 k arg
+  | 7 => d_C07 k arg
   | 8 => d_C08 k arg
   | 9 => d_C09 k arg
   | 10 => d_C10 k arg
